@@ -319,11 +319,11 @@ func ruleC11Kinds(c *ctx.Ctx, r *core.Reporter) {
 	}
 	if fd := c.FuncDecl("compiler", "funcContext.internalize"); fd != nil {
 		// arms: isBoolean -> !!, isInteger && !is64Bit -> fixNumber($parseInt), isFloat -> $parseFloat; else $internalize(...)
-		s := squash(nodeString(c, fd.Body))
-		r.Check(strings.Contains(s, `caseisBoolean(u):returnfc.formatExpr("!!(%s)",s)`), "fastpath:internalize:bool", c.Pos(fd.Pos()), "bool results are coerced with !!, like $internalize's $kindBool arm")
-		r.Check(strings.Contains(s, `caseisInteger(u)&&!is64Bit(u):returnfc.fixNumber(fc.formatExpr("$parseInt(%s)",s),u)`), "fastpath:internalize:int", c.Pos(fd.Pos()), "small integers are parsed and wrapped to their width")
-		r.Check(strings.Contains(s, `caseisFloat(u):returnfc.formatExpr("$parseFloat(%s)",s)`), "fastpath:internalize:float", c.Pos(fd.Pos()), "floats are parsed with $parseFloat")
-		r.Check(strings.Contains(s, `returnfc.formatExpr("$internalize(%s,%s)",s,fc.typeName(t))`), "fastpath:internalize:general", c.Pos(fd.Pos()), "every other type goes through $internalize with its run-time type")
+		_ = squash
+		r.Check(hasGoPattern(fd.Body, `switch { case isBoolean(µu): return µfc.formatExpr("!!(%s)", µs); µµrest }`) || armReturns(fd, `isBoolean(µu)`, `return µfc.formatExpr("!!(%s)", µs)`), "fastpath:internalize:bool", c.Pos(fd.Pos()), "bool results are coerced with !!, like $internalize's $kindBool arm")
+		r.Check(armReturns(fd, `isInteger(µu) && !is64Bit(µu)`, `return µfc.fixNumber(µfc.formatExpr("$parseInt(%s)", µs), µu)`), "fastpath:internalize:int", c.Pos(fd.Pos()), "small integers are parsed and wrapped to their width")
+		r.Check(armReturns(fd, `isFloat(µu)`, `return µfc.formatExpr("$parseFloat(%s)", µs)`), "fastpath:internalize:float", c.Pos(fd.Pos()), "floats are parsed with $parseFloat")
+		r.Check(hasGoPattern(fd.Body, `return µfc.formatExpr("$internalize(%s, %s)", µs, µfc.typeName(µt))`), "fastpath:internalize:general", c.Pos(fd.Pos()), "every other type goes through $internalize with its run-time type")
 	}
 }
 
@@ -352,4 +352,25 @@ func ruleC11Misc(c *ctx.Ctx, r *core.Reporter) {
 	if in := c.PreludeFunc("$internalize"); in != nil {
 		r.Check(strings.Contains(squash(in.Src()), "if(v&&v.__internal_object__!==undefined){return$assertType(v.__internal_object__,t,false);}"), "wrapper:unwrap", in.Pos(), "a wrapped Go value coming back from JavaScript is unwrapped to the original value")
 	}
+}
+
+// armReturns: fd contains an expression-switch arm whose single label matches labelPat and whose body is
+// the single statement matching stmtPat (metavariables are not shared between the two patterns).
+func armReturns(fd *ast.FuncDecl, labelPat, stmtPat string) bool {
+	found := false
+	ast.Inspect(fd.Body, func(n ast.Node) bool {
+		cc, ok := n.(*ast.CaseClause)
+		if !ok || len(cc.List) != 1 || len(cc.Body) != 1 {
+			return true
+		}
+		lp := compileGoPattern(labelPat)
+		if lp.expr == nil || !matchExprPat(lp.expr, cc.List[0], patEnv{}) {
+			return true
+		}
+		if len(findGoPattern(&ast.BlockStmt{List: cc.Body}, stmtPat)) > 0 {
+			found = true
+		}
+		return true
+	})
+	return found
 }
